@@ -91,6 +91,11 @@ impl<T: CoordsFloat> GridDescriptor<2, T> {
         match (self.n_cells, self.len_per_cell, self.lens) {
             // from # cells and lengths per cell
             (Some([nx, ny]), Some([lpx, lpy]), lens) => {
+                if nx == 0 || ny == 0 {
+                    return Err(BuilderError::InvalidGridParameters(
+                        "number of cells along one axis is null",
+                    ));
+                }
                 if lens.is_some() {
                     eprintln!(
                         "W: All three grid parameters were specified, total lengths will be ignored"
@@ -108,6 +113,11 @@ impl<T: CoordsFloat> GridDescriptor<2, T> {
             }
             // from # cells and total lengths
             (Some([nx, ny]), None, Some([lx, ly])) => {
+                if nx == 0 || ny == 0 {
+                    return Err(BuilderError::InvalidGridParameters(
+                        "number of cells along one axis is null",
+                    ));
+                }
                 #[rustfmt::skip]
                 check_parameters!(lx, "grid length along x is null or negative");
                 #[rustfmt::skip]
